@@ -4,7 +4,7 @@
    ARBITRARY oracles (tighter_than_when_before / try_chain), so NaN precedences and
    non-transitive ties are covered. *)
 From Coq Require Import List Bool ZArith.
-From NV Require Import Chain.ChainEval Chain.Climb Chain.Climb_proofs Chain.Folds_proofs Chain.ExpectedTable.
+From NV Require Import Chain.ChainEval Chain.Climb Chain.Climb_proofs Chain.Folds_proofs Chain.Root_proofs Chain.ExpectedTable.
 From NV Require Import Generated.BuiltinTable.
 Import ListNotations.
 
@@ -80,6 +80,24 @@ Theorem C03_tighter_spec : forall (L : Type) (pcmp : L -> L -> option comparison
   (pcmp (fst a) (fst b) <> Some Gt /\ pcmp (fst a) (fst b) <> Some Lt /\ snd a = ALeft).
 Proof. exact tighter_spec. Qed.
 Print Assumptions C03_tighter_spec.
+
+(* the declarative reading for ordinary precedences: a total preorder of levels (no NaN) with a
+   per-operator associativity, no chaining.  The root of the result is an operator that every
+   operator on its left binds tighter than ("tighter operators apply first; at equal precedence
+   the LEFT operator's associativity decides") and that binds tighter than nothing on its right;
+   its operands are the recursively grouped sub-chains. *)
+Theorem C03_root_choice : forall (F L V : Type) (leb : L -> L -> bool),
+  (forall a b, leb a b = true \/ leb b a = true) ->
+  (forall a b c, leb a b = true -> leb b c = true -> leb a c = true) ->
+  forall (ops : list (oper F (L * assoc) * term F V)) (e0 : term F V), ops <> [] ->
+  exists pre o x post,
+    ops = pre ++ (o, x) :: post /\
+    eval_chain (tight leb) (@nochain F) e0 ops =
+      App (o_fn o) [o_id o] [eval_chain (tight leb) (@nochain F) e0 pre; eval_chain (tight leb) (@nochain F) x post] /\
+    (forall q, In q pre -> tight leb (o_prec (fst q)) (o_prec o) = true) /\
+    (forall q, In q post -> tight leb (o_prec o) (o_prec (fst q)) = false).
+Proof. exact root_choice. Qed.
+Print Assumptions C03_root_choice.
 
 (* finite, over data regenerated from the live implementation on every run: every documented
    chainable pair chains in the try_chain relation dumped from /repo's working tree *)
